@@ -246,7 +246,7 @@ uint64_t remove_property(Property*& properties, const char* name, bool all_occur
         free_allocation(properties);
         properties = next;
         removed++;
-        if (!all_occurences) return removed;
+        if (!all_occurences || properties == NULL) return removed;
     }
     Property* property = properties;
     while (true) {
